@@ -235,6 +235,83 @@ func subC17(out string, seed uint64, tier string, arg string) {
 		}
 		rep.sample(map[string]interface{}{"san": descs, "cn": cn})
 	}
+	// ---- kit: S/MIME certificates (mailbox-validated legacy and strict, sponsor-validated) whose subject names a mailbox, with
+	// every ordered pair and triple of mailbox-bearing SAN entries: the matching rfc822Name, another one, SmtpUTF8Mailbox
+	// otherNames that match, differ, are empty, hold a non-UTF8String or two values, an unrelated otherName, a dNSName
+	{
+		mbox := "alice@example.com"
+		smtp := "1.3.6.1.5.5.7.8.9"
+		enc, _ := asn1.Marshal(parseOID(smtp))
+		on := func(inner ...*Node) *Node {
+			oidNode, _, _ := ParseNode(enc)
+			return cons(0xA0, oidNode, cons(0xA0, inner...))
+		}
+		matoms := []gnAtom{
+			{"email:" + mbox, func() *Node { return gnEmail(mbox) }},
+			{"email:bob@example.org", func() *Node { return gnEmail("bob@example.org") }},
+			{"smtp:" + mbox, func() *Node { return gnOtherName(smtp, mbox, false) }},
+			{"smtp:b\u00f6b@example.org", func() *Node { return gnOtherName(smtp, "b\u00f6b@example.org", false) }},
+			{"smtp:empty-wrapper", func() *Node { return gnOtherName(smtp, "", true) }},
+			{"smtp:ia5", func() *Node { return on(prim(0x16, []byte(mbox))) }},
+			{"smtp:two-values", func() *Node { return on(prim(0x0C, []byte(mbox)), prim(0x0C, []byte("x"))) }},
+			{"smtp:invalid-utf8", func() *Node { return on(prim(0x0C, []byte("\xff@example.com"))) }},
+			{"other:upn", func() *Node { return gnOtherName("1.3.6.1.4.1.311.20.2.3", mbox, false) }},
+			{"dns:mail.example.com", func() *Node { return gnDNS("mail.example.com") }},
+		}
+		smimeNB := time.Date(2023, 10, 1, 0, 0, 0, 0, time.UTC)
+		pols := []asn1.ObjectIdentifier{{2, 23, 140, 1, 5, 1, 1}, {2, 23, 140, 1, 5, 1, 3}, {2, 23, 140, 1, 5, 3, 2}}
+		var lists [][]gnAtom
+		for _, a := range matoms {
+			for _, b := range matoms {
+				lists = append(lists, []gnAtom{a, b})
+			}
+		}
+		nt := 60
+		if tier == "thorough" {
+			nt = 600
+		}
+		for i := 0; i < nt; i++ {
+			lists = append(lists, []gnAtom{matoms[rng.Intn(len(matoms))], matoms[rng.Intn(len(matoms))], matoms[rng.Intn(len(matoms))]})
+		}
+		for i, l := range lists {
+			var names []*Node
+			var descs []string
+			for _, a := range l {
+				names = append(names, a.node())
+				descs = append(descs, a.desc)
+			}
+			subj := pkixName(mbox)
+			if i%3 == 2 {
+				subj = pkixName("Alice Example")
+				subj.ExtraNames = []pkix.AttributeTypeAndValue{{Type: asn1.ObjectIdentifier{1, 2, 840, 113549, 1, 9, 1}, Value: mbox}}
+			}
+			der, err := BuildCert(CertSpec{Subject: subj, RawSAN: names, EKUs: []stdx509.ExtKeyUsage{stdx509.ExtKeyUsageEmailProtection}, Policies: []asn1.ObjectIdentifier{pols[i%len(pols)]},
+				KeyUsage: stdx509.KeyUsageDigitalSignature, NotBefore: smimeNB, NotAfter: smimeNB.AddDate(1, 0, 0)})
+			if err != nil {
+				rep.count("kit-smime-build-error")
+				continue
+			}
+			base := parseObj("cert", "kit-smime-san["+strings.Join(descs, ",")+"]", der)
+			if base == nil {
+				rep.count("kit-smime-rejected-by-parser")
+				continue
+			}
+			rep.count("kit-smime-san")
+			for _, p := range permsOf(len(l))[:2] {
+				cd, _ := ParseCertDER(der)
+				if cd.PermuteSAN(p) != nil {
+					continue
+				}
+				pm := parseObj("cert", base.Name+"~perm", cd.Bytes())
+				if pm == nil {
+					rep.violate(Violation{"C17", "a permutation of an accepted SAN is rejected by the parser (A-PERM)", "a-perm-reject", replayOf(base, nil)})
+					continue
+				}
+				rep.distinctKey(fmt.Sprintf("%s|%v", base.Name, p))
+				checkPair(base, pm, "SAN entries", func(n string) string { return "san-order:" + n })
+			}
+		}
+	}
 	// ---- kit: certificates of four profiles (TLS BR, S/MIME legacy, S/MIME strict, sub CA) carrying two to four *extra* extensions
 	// whose OIDs are taken from zlint's own OID table (the extensions lints look for), each critical or not, in every order of the
 	// extension list: a rule that walks c.Extensions and stops at the first one of a family is sensitive to it
